@@ -66,6 +66,12 @@ chk("C15", "exploration",
     "Trusted: io.SectionReader.Outer to recover header offsets, vinstr's step counters and map-range rewrite. Real code (instrumented copy): deb.LoadAr/Next/parseArEntry, deb.Load.",
     "DESIGN.md §5 C15")
 
+chk("C16", "fault_enumeration",
+    "deterministic simulation: signed .deb packages on a simulated disk passed through a corrupting store (single-byte substitution in each signed member and the signature, decoy control.*/data.* members, wrong role, foreign or empty keyring), loaded and verified repeatedly under tape-chosen map-iteration orders of the instrumented loader/verifier; thorough tier sweeps every fault position per sampled package; tape minimisation and exact replay",
+    "Soundness is checked on every run whatever the fault: if Load and CheckDebsig both succeed then the signer is the signing fixture key and is in the keyring, and the exposed control fields and payload equal the signed content (payload read before or after verification). Must-fail classes are checked under every sampled member order. The fault dimension is enumerated per sampled package in the thorough tier; packages and orders are sampled.",
+    "Trusted: x/crypto/openpgp (makes and verifies the signatures), fixture keys, vinstr's map-range rewrite. Real code (instrumented copy): deb.Load, Deb.CheckDebsig.",
+    "DESIGN.md §5 C16")
+
 def main():
     props = [json.loads(l) for l in open(os.path.join(HERE, "properties.jsonl"))]
     ids = [p["id"] for p in props]
